@@ -227,6 +227,9 @@ class Program:
                     cands = sel
             return cands
         name = strip_generics(c)
+        # `poll::<impl Trait>` : a trailing impl-Trait type argument of a generic free function (in the middle of a path the same
+        # syntax names an inherent impl: `num::<impl u16>::wrapping_add`)
+        name = re.sub(r'::<impl [^<>]*(?:<[^<>]*>)?[^<>]*>$', '', name)
         parts = name.split('::')
         meth = parts[-1]
         # `core::num::<impl u16>::wrapping_add`, `std::ptr::mut_ptr::<impl *mut T>::write`: not in our dumps
